@@ -87,6 +87,39 @@ CLAIMED = {
         "log round trip is decided by correspondence + oracle on the real logger (TZ=UTC); from_cli is oracle-only.",
         "6 (C02)",
     ),
+    "C07": (
+        "Coq model of the send FSM on a mini event loop + step lemmas (deadline armed at the call, the deadline wakes the caller, a wake-up always answers) + trace-equality correspondence with the real PortProtocol on a virtual-time loop + schedule oracle",
+        "4 theorems in coq/props/C07.v about coq/model/M_Qos.v (ProtocolContext.set_state/_send_cmd/_check_buffer_for_cmd/send_cmd, the "
+        "expiry task, the writer task, every 'Coding error' assert as an explicit Crash, on a loop model with _run_once batching and "
+        "tie policies): every call is answered at once or arms a wake-up at now + min(timeout, 20 s) [the cap re-read from the source]; "
+        "the wake-up of a waiting/timed-out caller always produces an answer. PARTIAL: 'the packet belongs to the command' is decided "
+        "by the oracle on the implementation, not yet by a theorem. Tie: ~100 (thorough 400+) generated schedules + 14 singled-out ones "
+        "run on the real PortProtocol and on the model; traces (write times, answers with outcome class and packet, loop exceptions, "
+        "final state, queue) must be EQUAL. Oracle: one answer per call, answered by the deadline, result is own echo/reply, error class "
+        "inside the ProtocolError family.",
+        "Trusted: Coq kernel, translator (FSM constants), harness (virtual-time loop = CPython's own _run_once with a clock-advancing selector, in-memory transport). Modelled not verified: asyncio semantics as assumed by the mini loop; threading.Lock, GC timing of never-retrieved task exceptions, the 0418 null-reply special case, the impersonation alert of PortProtocol.send_cmd. Liveness is only 'a wake-up is armed / a wake-up answers' -- that due timers run is the event loop's job.",
+        "6 (C07-C09)",
+    ),
+    "C08": (
+        "Coq invariant by induction over arbitrary event lists / tie policies / transport behaviours (Hoare-style triples over the step monad, holding at assertion crashes too) + computed ladder and refutation witness + trace-equality correspondence + schedule oracle",
+        "5 theorems in coq/props/C08.v: in EVERY reachable world tx_count <= tx_limit, limit >= 1 for a current command, back-off exponent "
+        "<= 3 (so every wait is base x 2^k, k <= 3); limit = 1 + min(max_retries, MAX_RETRY_LIMIT) with the constant regenerated; the exact "
+        "ladder (writes at +0, +0.5, +1.5, +3.5 s, failure at +7.5 s) by computation; 'never transmitted after the caller was answered' is "
+        "REFUTED with a witness (transport-delayed write) that the oracle re-observes on the real FSM (KNOWN). One-in-flight and "
+        "priority-then-FIFO start order are decided by the oracle on the implementation + trace equality, not by theorems (partial).",
+        "Trusted: Coq kernel, translator (FSM constants), harness (virtual-time loop = CPython's own _run_once with a clock-advancing selector, in-memory transport). Modelled not verified: asyncio semantics as assumed by the mini loop; threading.Lock, GC timing of never-retrieved task exceptions, the 0418 null-reply special case, the impersonation alert of PortProtocol.send_cmd. Liveness is only 'a wake-up is armed / a wake-up answers' -- that due timers run is the event loop's job.",
+        "6 (C07-C09)",
+    ),
+    "C09": (
+        "Coq refutation witness for the internal assertion (coincident timers) + the counter invariant holding across crashes + caller-answer lemma + trace-equality correspondence + schedule oracle with a follow-up probe send",
+        "3 theorems in coq/props/C09.v: the sender's own consistency check DOES trip (witness: echo timer and caller timeout in one loop "
+        "iteration, timer first) -- KNOWN; the counter invariant holds in every reachable world, crashed or not; a woken caller is always "
+        "answered. PARTIAL: 'quiescent => idle, nothing pending' and 'a fresh command succeeds afterwards' are decided by the oracle on "
+        "the implementation after every generated episode (final state, pending queue entries, loop exceptions, a probe command to a "
+        "responsive device), not by theorems. Four causes of tripped assertions / inconsistent final state are recorded as KNOWN findings.",
+        "Trusted: Coq kernel, translator (FSM constants), harness (virtual-time loop = CPython's own _run_once with a clock-advancing selector, in-memory transport). Modelled not verified: asyncio semantics as assumed by the mini loop; threading.Lock, GC timing of never-retrieved task exceptions, the 0418 null-reply special case, the impersonation alert of PortProtocol.send_cmd. Liveness is only 'a wake-up is armed / a wake-up answers' -- that due timers run is the event loop's job.",
+        "6 (C07-C09)",
+    ),
 }
 
 NOT_YET = "not claimed yet: the Coq model and correspondence harness for this property are not built in this revision (planned in DESIGN.md section 6)"
